@@ -77,6 +77,10 @@ def requests(kind):
     add('Eq', ['Eq{B}'], [(E, PE, [PE], True)])
     add('Default', ['Default{B}'], [(DF, DF, [], True)])
     add('Default+new', ['Default{B+new}'], [(DF, DF, [], True), ('', DF, [], True)])
+    # a type-level expression builds the whole value: no field is delegated, so automatic bounds are empty, but an explicit bound mode is honoured all the same
+    if kind in ('struct', 'tuple'):     # (on enums and unions the item template marks a default variant / field, which a type-level expression excludes)
+        add('Default+texpr', ['Default{B+texpr}'], [(DF, DF, [], True)])
+        add('Default+texpr+new', ['Default{B+texpr+new}'], [(DF, DF, [], True), ('', DF, [], True)])
     if not union:
         add('Into', ['Into(u64{,B})'], [(P['Into'] + ' < u64 >', P['Into'] + ' < u64 >', [], True)])
         add('Into2b', ['Into(u64{,B})', 'Into(W{,B})'], [(P['Into'] + ' < u64 >', P['Into'] + ' < u64 >', [], True), (P['Into'] + ' < W >', P['Into'] + ' < W >', [], True)])
@@ -90,6 +94,10 @@ def fill(meta, btext):
         return meta.replace('{B}', '(%s)' % btext if btext else '')
     if '{B+new}' in meta:
         return meta.replace('{B+new}', '(%s)' % ', '.join(x for x in ('new', btext) if x))
+    if '{B+texpr}' in meta:
+        return meta.replace('{B+texpr}', '(%s)' % ', '.join(x for x in ('expression = Ty::make()', btext) if x))
+    if '{B+texpr+new}' in meta:
+        return meta.replace('{B+texpr+new}', '(%s)' % ', '.join(x for x in (btext, 'new', 'expression = Ty::make()') if x))
     if '{,B}' in meta:
         return meta.replace('{,B}', ', ' + btext if btext else '')
     return meta
@@ -278,6 +286,8 @@ def check(v, tier, only=None):
                             ftys = [ctx[5][0], ctx[5][1]]
                     if rid.startswith('Default') and kind in ('enum', 'union'):
                         ftys = [ctx[5][0]]
+                    if rid.startswith('Default+texpr'):
+                        ftys = []
                     want = set('%s : %s' % (canon[t], btrait) for t in ftys) | set('Self : %s' % s for s in supers)
                     if set(added) != want:
                         problems.append('impl %s: automatic bounds %s, expected %s' % (tr or 'inherent', sorted(set(added)), sorted(want)))
